@@ -136,7 +136,66 @@ theorem nXor_zero_sub (a b : List Nat) (h : nXor a b = 0) : ∀ x ∈ b, x ∈ a
   rw [h3] at this
   cases this
 
+theorem uniq_length_le (l : List Nat) : (uniq l).length ≤ l.length := by
+  induction l with
+  | nil => simp [uniq]
+  | cons a t ih =>
+    unfold uniq
+    by_cases hc : t.contains a = true
+    · simp only [hc, ↓reduceIte, List.length_cons]; omega
+    · simp only [hc, Bool.false_eq_true, ↓reduceIte, List.length_cons]; omega
+
+/-- `len(np.unique(x)) == len(x)` says: no value occurs twice -/
+theorem uniq_length_eq_iff (l : List Nat) : (uniq l).length = l.length ↔ l.Nodup := by
+  induction l with
+  | nil => simp [uniq]
+  | cons a t ih =>
+    unfold uniq
+    have hle := uniq_length_le t
+    by_cases hc : t.contains a = true
+    · have hm : a ∈ t := by simpa using hc
+      simp only [hc, ↓reduceIte, List.length_cons, List.nodup_cons]
+      constructor
+      · intro h; omega
+      · intro h; exact absurd hm h.1
+    · have hm : a ∉ t := by simpa using hc
+      simp only [hc, Bool.false_eq_true, ↓reduceIte, List.length_cons, List.nodup_cons, Nat.add_right_cancel_iff, ih]
+      exact ⟨fun h => ⟨hm, h⟩, fun h => h.2⟩
+
 /-! ### `_get_pixels_by_seg_frame`: the head in closed form -/
+
+/-- the translated validation of the requested numbers (T8p) in closed form -/
+theorem requestAdmitted_eq (allKnown : Bool) (nd n : Int) :
+    requestAdmitted allKnown nd n =
+      if allKnown = false then .error .value else if nd ≠ n then .error .value else .ok n := by
+  unfold requestAdmitted
+  cases allKnown <;> by_cases h : nd = n <;> simp [h]
+
+/-- … on a request: refused iff some number is not described or some number occurs twice -/
+theorem requestAdmitted_request (st : Stored) (rq : Req) :
+    requestAdmitted (rq.segs.all fun s => st.segNums.contains s) ((uniq rq.segs).length : Int) (rq.segs.length : Int) =
+      if (∀ s ∈ rq.segs, s ∈ st.segNums) ∧ rq.segs.Nodup then .ok (rq.segs.length : Int) else .error .value := by
+  rw [requestAdmitted_eq]
+  by_cases hsub : ∀ s ∈ rq.segs, s ∈ st.segNums
+  · have h1 : (rq.segs.all fun s => st.segNums.contains s) = true := by
+      rw [List.all_eq_true]; intro s hs; simpa using hsub s hs
+    rw [h1]
+    by_cases hnd : rq.segs.Nodup
+    · have := (uniq_length_eq_iff rq.segs).mpr hnd
+      rw [if_neg (by simp), if_neg (by simp [this]), if_pos ⟨hsub, hnd⟩]
+    · have : (uniq rq.segs).length ≠ rq.segs.length := fun h => hnd ((uniq_length_eq_iff rq.segs).mp h)
+      have h' : ((uniq rq.segs).length : Int) ≠ (rq.segs.length : Int) := by omega
+      rw [if_neg (by simp), if_pos h', if_neg (fun h => hnd h.2)]
+  · have h1 : (rq.segs.all fun s => st.segNums.contains s) = false := by
+      rw [List.all_eq_false]
+      apply Classical.byContradiction
+      intro hne
+      apply hsub
+      intro s hs
+      apply Classical.byContradiction
+      intro hn
+      exact hne ⟨s, hs, by simpa using hn⟩
+    rw [h1, if_pos rfl, if_neg (fun h => hsub h.1)]
 
 theorem readHead_eq (st : Stored) (rq : Req) :
     readHead rq.combine rq.relabel rq.rescale (rq.dtype.map DType.code) rq.segs.length (listMax rq.segs)
@@ -157,18 +216,23 @@ theorem readHead_eq (st : Stored) (rq : Req) :
   | some d =>
     simp only [Option.map_some]
 
-theorem readCore_eq (st : Stored) (rq : Req) (hsub : ∀ s ∈ rq.segs, s ∈ st.segNums) :
+theorem readCore_eq (st : Stored) (rq : Req) (hsub : ∀ s ∈ rq.segs, s ∈ st.segNums) (hnd : rq.segs.Nodup) :
     readCore st rq =
       (if ceiling st rq > (chosenDtype st rq).maxVal then .error .value
        else if st.type = .labelmap then labelmapRead st rq (chosenDtype st rq)
        else stackRead st rq (chosenDtype st rq) (willRescale st rq)) := by
   unfold readCore
-  have h1 : (rq.segs.all fun s => st.segNums.contains s) = true := by
-    rw [List.all_eq_true]; intro s hs; simpa using hsub s hs
-  simp only [h1, Bool.not_true, Bool.false_eq_true, ↓reduceIte, readHead_eq, bind, Except.bind, ofCode_code, checkRepr_eq]
+  have h1 : (∀ s ∈ rq.segs, s ∈ st.segNums) ∧ rq.segs.Nodup := ⟨hsub, hnd⟩
+  rw [requestAdmitted_request, if_pos h1]
+  simp only [readHead_eq, bind, Except.bind, ofCode_code, checkRepr_eq]
   by_cases h : ceiling st rq > (chosenDtype st rq).maxVal
   · simp [h]
   · simp [h]
-
+/-- a request naming an undescribed number, or a number twice, is refused before anything else -/
+theorem readCore_not_admitted (st : Stored) (rq : Req) (h : ¬ ((∀ s ∈ rq.segs, s ∈ st.segNums) ∧ rq.segs.Nodup)) :
+    readCore st rq = .error .value := by
+  unfold readCore
+  rw [requestAdmitted_request, if_neg h]
+  rfl
 
 end HdVerif.SegReadLemmas
